@@ -1195,6 +1195,7 @@ impl Union for AdjacencyMap {
     /// The time complexity is `O((v1 + v2) log (v1 + v2) + U)`, where `v1` is
     /// the order of `self`, `v2` is the order of `other`, and `U` is the
     /// number of arcs in the union of `self` and `other`.
+    #[allow(clippy::too_many_lines)]
     fn union(&self, other: &Self) -> Self {
         #[cfg(graaf_verif)] use crate::verif_rt::{available_parallelism, scope};
         let lhs_vec = self
@@ -1270,6 +1271,11 @@ impl Union for AdjacencyMap {
                                         j += 1;
                                     }
                                     Ordering::Equal => {
+                                        // Take both entries so that their
+                                        // sets are freed.
+                                        let a = read(lhs_ptr.add(i));
+                                        let b = read(rhs_ptr.add(j));
+
                                         let union_set =
                                             union_sets_unsafe(&a.1, &b.1);
 
@@ -1296,6 +1302,19 @@ impl Union for AdjacencyMap {
                 merged_entries.extend(h.join().unwrap());
             }
         });
+
+        // Every entry has been moved out; free the two buffers without
+        // dropping the entries again.
+        let mut lhs_vec = ManuallyDrop::into_inner(lhs_vec);
+        let mut rhs_vec = ManuallyDrop::into_inner(rhs_vec);
+
+        unsafe {
+            lhs_vec.set_len(0);
+            rhs_vec.set_len(0);
+        }
+
+        drop(lhs_vec);
+        drop(rhs_vec);
 
         merged_entries.sort_unstable_by_key(|&(k, _)| k);
 
